@@ -637,6 +637,11 @@ impl Compiler {
             } else if rule.capture_name.is_some() || (inner.is_parametric() && !rule.is_parametric)
             {
                 self.builder.join_props(&[inner], props)
+            } else if self.builder.has_param_expr(inner) {
+                // `x::_ : y::incr(_)` - the body is just a reference to another symbol with
+                // a parameter expression; `x` needs a symbol of its own, otherwise
+                // the expression is dropped when `x::...` is referenced
+                self.builder.wrap(inner)
             } else {
                 inner
             }
